@@ -17,6 +17,14 @@ def jobs(tier):
     import sys; sys.path.insert(0,_o.path.dirname(_o.path.dirname(_o.path.abspath(__file__))))
     from jobs_lib import vf as _vf
     J+=[j for j in _vf(tier,'C04')]
+    # the packet an application takes straight from vorbis_analysis carries the BLOCK's granule position (C04-m5); the C05 job list itself
+    # borrows enc-step from here, hence the recursion guard
+    if not _o.environ.get('_C04_NOREC'):
+        _o.environ['_C04_NOREC']='1'
+        try:
+            from jobs_lib import other as _other
+            J+=_other('C05',tier,lambda j:j.name=='analysis-pkt')
+        finally: del _o.environ['_C04_NOREC']
     return J
-CLAIM={'text':'Inductive-step model checking of the real encoder block scheduler (vorbis_analysis_blockout) from every state satisfying the invariant I_enc, plus (as they are added) the decoder-side step and base cases; and of the decoder accumulator (vorbis_synthesis_blockin: a block exposes (lW/4+W/4)>>hs samples, the eos block is trimmed to its granule position, granule tracking); the end-of-link page search of vorbisfile returns offset, serial number and granule position of ONE page (F-prevserial: what ov_pcm_total is computed from, also in multiplexed links); decides the sample-count/granule bookkeeping for every N and every write partition at the listed block-size pairs.',
+CLAIM={'text':'(Also: the initial PCM offset of a link - what ov_pcm_total subtracts - equals the first positioned page minus the samples decoded up to it, F-initpcm; the packet taken directly from vorbis_analysis carries the block granule position, analysis-pkt.) Inductive-step model checking of the real encoder block scheduler (vorbis_analysis_blockout) from every state satisfying the invariant I_enc, plus (as they are added) the decoder-side step and base cases; and of the decoder accumulator (vorbis_synthesis_blockin: a block exposes (lW/4+W/4)>>hs samples, the eos block is trimmed to its granule position, granule tracking); the end-of-link page search of vorbisfile returns offset, serial number and granule position of ONE page (F-prevserial: what ov_pcm_total is computed from, also in multiplexed links); decides the sample-count/granule bookkeeping for every N and every write partition at the listed block-size pairs.',
  'note':'Trusted: CBMC C semantics; psychoacoustic decisions (_ve_envelope_search/_mark) modelled as arbitrary; float DSP is outside; invariant I_enc as written in harness/C04/enc_step.c. Bounds: concrete block-size pairs per job, ghost positions < 2^40.'}
